@@ -194,7 +194,7 @@ def route(state, rs, tid):
         elif r == "Noh=Cog19":
             from exactpack.solvers.cog.cog19 import Cog19
             sb = Cog19(geometry=kw["geometry"], gamma=kw["gamma"], rho0=kw["rho0"], u0=kw["u0"], Gamma=40.0)
-        elif r == "Noh=BlackBoxNoh":
+        elif r in ("Noh=BlackBoxNoh", "Noh=BlackBoxNoh.resolved"):
             from exactpack.solvers.nohblackboxeos.blackboxnoh import NohBlackBoxEos
             from exactpack.solvers.nohblackboxeos.equations_of_state.eos_library import ideal_gas_eos
             g, gam = kw["geometry"], kw["gamma"]
@@ -204,6 +204,11 @@ def route(state, rs, tid):
             sb.set_new_solver_initial_guess([kw["rho0"] * ((gam + 1) / (gam - 1)) ** g * 0.8, 0.45 * kw["u0"] ** 2,
                                              0.6 * abs(kw["u0"]) * (gam - 1) / 2])
             sb.solve_jump_conditions()
+            if r.endswith(".resolved"):
+                # the same object solves again from another reasonable guess (a user scanning guesses / tolerances)
+                sb.set_new_solver_initial_guess([kw["rho0"] * ((gam + 1) / (gam - 1)) ** g * 0.9, 0.4 * kw["u0"] ** 2,
+                                                 0.7 * abs(kw["u0"]) * (gam - 1) / 2])
+                sb.solve_jump_conditions()
             res = "root"
         elif r == "Noh2=Noh2Cog":
             from exactpack.solvers.noh2.noh2_cog import Noh2Cog
